@@ -223,7 +223,10 @@ class Explorer:
                     return v
                 continue
             self.stats.value_forks += 1
-            if self.stats.value_forks > self.fork_cap:
+            # the cap bounds how many values have been excluded one by one along *this* path (enumeration of a wide
+            # variable), not the number of small-domain forks of the whole obligation; a generous global bound remains
+            excluded = sum(1 for d in self.decisions if d[0] == 'c' and not d[2])
+            if excluded > self.fork_cap or self.stats.value_forks > 200 * self.fork_cap:
                 raise ForkCap()
             if self.model is None:
                 self._refresh_model()
